@@ -21,6 +21,8 @@ A11 = ("A11 shape-level contracts of curves.py (engine V, C15): a knot vector is
        "the final weights setter of update / apply is assumed not to find a zero in the refitted / transformed weight function (no witness against it was found "
        "by a native search over 3000 random rational curves); the call-site summaries of update / apply / the setters / knot_remove / degree_* / *_clean restate "
        "the postconditions PROVED for those functions (the correspondence is by construction and hand review, not machine-checked)")
+A12 = ("A12 engine V treats distinct object parameters as distinct objects (no aliasing between `self` and `other`), and does not decide the identity "
+       "of two symbolic VALUE objects (immutable payloads): an `is` test between them puts the function outside V (bounded checks decide)")
 S_COMMON = [A1, A2, A3, A5, A6, A7, A8]
 TRUSTED = ["CPython 3.12", "numpy 2.5 object-dtype loops", "fractions.Fraction", "sympy 1.14 polys.fields", "z3-solver 5.1.0", "cvc5 1.4.0",
            "vlib/spec.py (Cox-de Boor spec, written from the definition)"]
